@@ -28,9 +28,10 @@
 (*   Return        Register returns (after the deferred SleepWithContext)  *)
 (*                                                                         *)
 (* Outcomes (scripted by the environment):                                 *)
-(*   API  neterr (connection closed without a response), s404, s500,       *)
-(*        garbage (200, body is not a RegistrationResponse), R* (200 with  *)
-(*        the RegistrationResponse below; R0 = empty body)                 *)
+(*   API  neterr (connection closed without a response), s404 (any status  *)
+(*        300..499), s500 (500..599), garbage (2xx, body is not a          *)
+(*        RegistrationResponse), R* (2xx with the RegistrationResponse     *)
+(*        below; R0 = empty body)                                          *)
 (*   DNS  servfail (resolver answers with an error RCODE), garbage (bytes  *)
 (*        that are no DnsResponse), nosuccess (success=false), nobidi      *)
 (*        (success=true, no bidirectional_response), R* (success=true)     *)
@@ -41,6 +42,23 @@
 (*               difference is guarded by the operator Intended)           *)
 (*   "offbyone"  a deliberately broken instance (loop guard <= instead of  *)
 (*               <): must violate AttemptBound                             *)
+(*                                                                         *)
+(* Where the two variants differ (each is an I_* property below that the   *)
+(* as-found variant violates and the conformance stages reproduce on the   *)
+(* real code; when the code is repaired, drop the corresponding guard):    *)
+(*   - the DNS registrar ignores the context: requests are sent after the  *)
+(*     cancellation and a request in flight is not given up                *)
+(*   - the API registrar calls its secondary with a cancelled context      *)
+(*   - a rejected response leaves its port in the registration (DNS)       *)
+(*   - DnsResponse.success=false is a success for the unidirectional DNS   *)
+(*     registrar; RegistrationResponse.error is never looked at            *)
+(*   - a success without any phantom address (empty body, no               *)
+(*     bidirectional_response) is accepted                                 *)
+(*   - an unpack failure makes the API registrar return at once (no retry, *)
+(*     no fallback, not ErrRegFailed) while the DNS registrar retries      *)
+(*   - the connection delay is slept after failures, and twice after a     *)
+(*     fallback to a DNS registrar                                         *)
+(*   - the DNS registrar logs "attempt i/maxRetries" (API: maxRetries+1)   *)
 (***************************************************************************)
 EXTENDS Naturals, Sequences, FiniteSets, TLC
 
@@ -86,6 +104,8 @@ CfgGenA    == AllConfigs(0..1, {0}, {FALSE}, {FALSE})                          \
 CfgGenB    == {c \in AllConfigs({1}, {0, 1}, {FALSE}, BOOLEAN) : c.bidi /\ (c.sec = "dns" => c.sbidi)}
 CfgGenD    == {c \in AllConfigs({0, 1}, {0}, {TRUE}, {FALSE}) : c.bidi}        \* with connectionDelay
 CfgGenC    == AllConfigs({2}, {0, 1}, {FALSE}, {FALSE})                          \* three attempts, small alphabets
+CfgGenE    == AllConfigs(0..2, {0, 1}, {FALSE}, BOOLEAN)                         \* thorough tier: everything up to three attempts
+CfgGap     == CfgGenA \cup CfgGenD
 CfgSim     == AllConfigs(0..3, 0..2, {FALSE}, BOOLEAN)
 
 Rg(i) == IF i = 1 THEN [kind |-> cfg.kind, bidi |-> cfg.bidi, max |-> cfg.max]
@@ -217,17 +237,21 @@ StubReturn(ok) ==
   /\ obs' = [a |-> "StubReturn", ok |-> ok]
   /\ UNCHANGED <<cfg, cur, tries, wire, dialed, reg, accepted, cancelled, wireAC, fbAC, secCalls, result>>
 
-\* deferred lib.SleepWithContext(ctx, connectionDelay) of every registrar that was entered: it runs on failure as well and
-\* returns at once when the context is cancelled
-Slept == IF cancelled \/ ~cfg.delay THEN 0 ELSE IF cur = 2 /\ cfg.sec = "dns" THEN 2 ELSE 1
+\* deferred lib.SleepWithContext(ctx, connectionDelay) of every registrar that was entered: as found it runs on failure as
+\* well (and twice after a fallback to a DNS registrar with a delay of its own); it returns at once when the context is
+\* cancelled.  Intended (Config.Delay / APIRegistrar.connectionDelay: "delay after confirming successful registration"):
+\* once, after a success.
+Slept(err) == IF cancelled \/ ~cfg.delay THEN 0
+              ELSE IF Intended THEN (IF err = "none" THEN 1 ELSE 0)
+              ELSE IF cur = 2 /\ cfg.sec = "dns" THEN 2 ELSE 1
 
 Return ==
   /\ LET R == Rg(cur)
          e == Eval(R, last, reg)
          fin(err, rg, acc) ==
-           /\ result' = [err |-> err, reg |-> rg, slept |-> Slept]
+           /\ result' = [err |-> err, reg |-> rg, slept |-> Slept(err)]
            /\ accepted' = acc
-           /\ obs' = [a |-> "Return", err |-> err, reg |-> rg, slept |-> Slept] IN
+           /\ obs' = [a |-> "Return", err |-> err, reg |-> rg, slept |-> Slept(err)] IN
      \/ pc = "got" /\ e.v = "accept" /\ fin("none", e.reg, last)
      \/ pc = "got" /\ e.v = "fatal" /\ fin("unpack", None, "-")                       \* `return nil, err`, not ErrRegFailed
      \/ /\ pc = "ready" /\ tries[cur] >= Limit(R)
@@ -319,6 +343,8 @@ I_ErrorIndicationRespected == accepted # "nosuccess" /\ (accepted = "RE" => ~Rg(
 I_AcceptedHasAddr == (Ok /\ AcceptingBidi) => (result.reg.p4 \notin {"nil", "zero"} \/ result.reg.p6 \notin {"nil", "empty"})
 \* every failure is reported as ErrRegFailed (or the secondary's own error), after the retries and the fallback
 I_FailureIsRegFailed == pc = "done" => result.err \in {"none", "regfailed", "stub"}
+\* the connection delay is waited out once, after a successful registration only
+I_DelayOnceAfterSuccess == pc = "done" => result.slept = (IF Ok /\ cfg.delay /\ ~cancelled THEN 1 ELSE 0)
 \* the caller's cancellation makes Register return even if answers are lost (checked under LossySpec)
 CancelLeadsToReturn == (cancelled /\ pc # "idle") ~> (pc = "done")
 =============================================================================
